@@ -121,3 +121,59 @@ Example C16_example :
         (F_Actor, FItem (IIri false (B "https://example.com/actors/bob"))); (F_Target, FItem idless1);
         (F_Object, FItem (IIri false ida))].
 Proof. vm_compute. reflexivity. Qed.
+
+(* ---- generated-table tie (b26) ---- *)
+(* The step lists of the property flatteners ([object_steps], [intransitive_steps], [activity_steps]: which
+   property is flattened with which helper, in which order, and which function delegates to which) and the
+   dispatch of FlattenProperties are no longer tied to the source by the correspondence check alone:
+   Gen/FlattenT.v is regenerated from flatten.go on every run (translator/flattent.go: every statement of every
+   `func F(x *K) *K`, and the Contains/On<K> chain of FlattenProperties).  Model/FlattenTab.v expands a table
+   into step lists (delegations resolved through the table, On<K> admitted only where the struct converts),
+   runs them with the model's own [run_steps] ([flatten_fields_t]) and states the decidable condition
+   [flatten_table_ok].  A source change that drops a property from a flattener, uses another helper, reorders the
+   steps or edits the dispatch breaks C16_flatten_table. *)
+From AP.Model Require Import FlattenTab FlattenGen.
+From AP.Proofs Require Import FlattenTabP.
+
+(* generic: for EVERY table that satisfies the condition and every id comparison, the table's meaning is the
+   model the theorems above are about, and the positions it flattens are the model's (C16_positions: the
+   property's list) *)
+Theorem C16_flatten_table_tie : forall tbl d, flatten_table_ok tbl d = true ->
+  forall eqv k fs, flatten_fields_t tbl eqv k fs = flatten_fields eqv k fs.
+Proof. exact flatten_table_tie. Qed.
+Theorem C16_flatten_table_positions : forall tbl d, flatten_table_ok tbl d = true ->
+  forall k f, flattened_in_t tbl k f = flattened_in k f.
+Proof. exact flatten_table_positions. Qed.
+
+(* diagnosis first: when the source moved, this is the obligation that fails, and Coq's error message shows the
+   entry point with the generated and the modelled step list *)
+Theorem C16_flatten_table_first_bad : first_bad_flatten gen_flatten_table = None.
+Proof. vm_compute. reflexivity. Qed.
+
+(* the condition on the tables regenerated from the source on this run *)
+Theorem C16_flatten_table : flatten_table_ok gen_flatten_table gen_flatten_dispatch = true.
+Proof. vm_compute. reflexivity. Qed.
+
+(* hence: the flatteners as the source says them now are the model's *)
+Theorem C16_flatten_gen : forall eqv k fs, flatten_fields_gen eqv k fs = flatten_fields eqv k fs.
+Proof. exact (C16_flatten_table_tie gen_flatten_table gen_flatten_dispatch C16_flatten_table). Qed.
+
+(* non-vacuity: six functions in flatten.go; the generated table run on the example value of section 6 *)
+Example C16_flatten_gen_example :
+  length gen_flatten_table = 6 /\
+  steps_t gen_flatten_table FKActivity = Some activity_steps /\
+  flatten_fields_gen ideq FKActivity ex16 = flatten_fields_m FKActivity ex16.
+Proof. repeat split; vm_compute; reflexivity. Qed.
+
+(* what the condition is for: the table of a source in which FlattenObjectProperties lost the line for likes
+   fails it, and that table's meaning leaves an embedded object in likes *)
+Example C16_dropped_step_rejected :
+  flatten_table_ok (flatten_table_without F_Likes) gen_flatten_dispatch = false /\
+  option_map (fun p => fst (fst p)) (first_bad_flatten (flatten_table_without F_Likes)) = Some FKObject /\
+  (exists fs', flatten_fields_t (flatten_table_without F_Likes) ideq FKObject [(F_Likes, FItem objA)] = Ok fs'
+               /\ get_item F_Likes fs' = objA) /\
+  (exists fs', flatten_fields_m FKObject [(F_Likes, FItem objA)] = Ok fs' /\ get_item F_Likes fs' = IIri false ida).
+Proof.
+  split; [vm_compute; reflexivity|]. split; [vm_compute; reflexivity|].
+  split; eexists; split; vm_compute; reflexivity.
+Qed.
